@@ -5,6 +5,14 @@ prop(
     level="exploration",
     min_evals={"quick": 180_000_000, "thorough": 3_000_000_000},
     rule=(
+        "values that enter through the other public doors obey the same laws as constructed ones (length within the family, host bits zero, "
+        "prefix length <= max-len <= family maximum, equal / equally hashed / cmp Equal to the value rebuilt from their own parts by the named "
+        "constructor, text parses back, AS sets strictly ascending): Arbitrary::arbitrary (crate feature `arbitrary`) of Prefix, MaxLenPrefix, "
+        "RouteOrigin, SmallAsnSet, Asn from every (family selector, length selector) octet pair x 5 characteristic addresses x 10 max-len octets "
+        "plus random octet strings; serde through the harness' token format - every domain prefix serialised human-readable and compact and "
+        "read back over 6 transports (borrowed / transient / owned strings x structs as map / sequence) must be the same value, and every leaf "
+        "token damaged in up to 12 ways (boundary values of its width, single bits, trimmed / padded strings) must give an error or a value that "
+        "satisfies the laws; hashes are compared under SipHash and under a word-at-a-time hasher; "
         "constructors (strict, relaxed, per-family, text) for every length 0..=255 x a boundary-dense address pool (address as given, host bits cleared, lowest / highest host bit set); "
         "a boundary-dense prefix domain (chains /0../32 and /0../128 through several addresses plus the sibling of every chain element; about 450 prefixes quick, 840 thorough): "
         "all ordered pairs for covers vs range inclusion, cmp vs ==, hash, more-specific-first, antisymmetry, and all triples for transitivity (on the matrix of library results); "
